@@ -53,6 +53,9 @@ var actorTypes = map[string]bool{"Person": true, "Service": true, "Group": true,
 type deliveryModel struct {
 	Inboxes  []string        // expected recipient set
 	MayFetch map[string]bool // IRIs the library may dereference
+	// Reach (filled by the caller) holds every IRI of the recipient graph
+	// at any depth: an IRI in Reach but not in MayFetch lies beyond the limit
+	Reach map[string]bool
 }
 
 // modelDelivery computes the inbox set for an activity's recipient ids.
@@ -66,6 +69,9 @@ func modelDelivery(sc *sim.Scenario, recipients []string, senderInbox string, ma
 		}
 		if in, ok := sc.StoredInbox[r]; ok {
 			out = append(out, in)
+			// an addressed actor is a level-0 recipient: fetching it although
+			// its inbox is stored is wasteful, not forbidden by the statement
+			dm.MayFetch[r] = true
 			continue
 		}
 		rest = append(rest, r)
@@ -116,6 +122,33 @@ func modelDelivery(sc *sim.Scenario, recipients []string, senderInbox string, ma
 		}
 	}
 	return dm
+}
+
+// reachAll returns every IRI of the recipient graph, at any depth.
+func reachAll(sc *sim.Scenario, recipients []string) map[string]bool {
+	seen := map[string]bool{}
+	todo := append([]string{}, recipients...)
+	for len(todo) > 0 {
+		u := todo[0]
+		todo = todo[1:]
+		if seen[u] || isPublic(u) {
+			continue
+		}
+		seen[u] = true
+		doc, ok := netFetch(sc, u)
+		if !ok {
+			continue
+		}
+		typ, _ := doc["type"].(string)
+		if member, isCol := collectionTypes[typ]; isCol {
+			for _, it := range asList(doc[member]) {
+				if id, ok := idOfValue(it); ok {
+					todo = append(todo, id)
+				}
+			}
+		}
+	}
+	return seen
 }
 
 // recipientIDs lists the ids of the five addressing properties in order.
@@ -183,8 +216,15 @@ func genDeliveryScenario(g *prng.R) (*sim.Scenario, M) {
 			inbox := inboxOfActor(id)
 			if g.Chance(1, 5) && i > 0 {
 				inbox = inboxOfActor(actors[0]) // shared inbox => duplicates
+			} else if g.Chance(1, 12) {
+				inbox = aliceIn() // an actor sharing the sender's inbox: never delivered to
 			}
-			sc.Remote[id] = sim.RemoteSpec{Doc: M{"@context": AS, "type": pick(g, "Person", "Service", "Group"), "id": id, "inbox": inbox}}
+			var ctx interface{} = AS
+			if g.Chance(1, 4) {
+				// the usual shape of a remote actor document
+				ctx = A{AS, "https://w3id.org/security/v1"}
+			}
+			sc.Remote[id] = sim.RemoteSpec{Doc: M{"@context": ctx, "type": pick(g, "Person", "Service", "Group", "Organization", "Application"), "id": id, "inbox": inbox}}
 		}
 	}
 	nCols := g.Intn(7)
@@ -203,8 +243,16 @@ func genDeliveryScenario(g *prng.R) (*sim.Scenario, M) {
 			} else {
 				ref = actors[g.Intn(len(actors))]
 			}
+			if g.Chance(1, 10) {
+				ref = pick(g, alice(), bob()) // the sender (or another local actor) as a member
+			}
 			if g.Chance(1, 4) {
-				items = append(items, M{"type": "Person", "id": ref})
+				m := M{"type": "Person", "id": ref}
+				if g.Chance(1, 3) {
+					// inline data of an embedded value is not the dereferenced document
+					m["inbox"] = ref + "/inline-inbox"
+				}
+				items = append(items, m)
 			} else {
 				items = append(items, ref)
 			}
@@ -227,6 +275,25 @@ func genDeliveryScenario(g *prng.R) (*sim.Scenario, M) {
 	act := M{"type": pick(g, "Listen", "Announce", "Offer", "Read", "Follow"), "actor": alice(), "object": R1 + "/things/1"}
 	pool := append(append([]string{}, actors...), cols...)
 	pool = append(pool, alice(), bob(), Public, "as:Public", R1+"/users/nowhere")
+	if len(actors) > 1 && g.Chance(1, 3) {
+		// the sender's own followers collection, served from this server
+		var fl A
+		for _, a := range actors {
+			if g.Chance(1, 3) {
+				fl = append(fl, a)
+			}
+		}
+		if g.Bool() {
+			fl = append(fl, alice())
+		}
+		fc := M{"@context": AS, "type": "Collection", "id": alice() + "/followers"}
+		if len(fl) > 0 {
+			fc["items"] = fl
+		}
+		sc.Store[alice()+"/followers"] = fc
+		cols = append(cols, alice()+"/followers")
+		pool = append(pool, alice()+"/followers", alice()+"/followers")
+	}
 	// one scenario in six: the application has a stored inbox for every
 	// addressed actor (nothing is left to dereference), the sender included
 	memberOf0 := map[string]bool{}
@@ -261,7 +328,16 @@ func genDeliveryScenario(g *prng.R) (*sim.Scenario, M) {
 			ref := pool[g.Intn(len(pool))]
 			addressed[ref] = true
 			if g.Chance(1, 4) && !isPublic(ref) {
-				vals = append(vals, M{"type": "Person", "id": ref})
+				m := M{"type": "Person", "id": ref}
+				switch g.Intn(6) {
+				case 0:
+					m["inbox"] = ref + "/inline-inbox" // not the dereferenced document's
+				case 1:
+					m = M{"type": "Collection", "id": ref, "items": A{R2 + "/users/inline-only"}}
+				case 2:
+					m = M{"type": "Mention", "href": ref, "name": "@someone"}
+				}
+				vals = append(vals, m)
 			} else {
 				vals = append(vals, ref)
 			}
@@ -291,6 +367,7 @@ func init() {
 			observeLog(r, res)
 			rp := res.Responses[0]
 			dm := modelDelivery(sc, recipientIDs(act), aliceIn(), sc.Cfg.MaxDelivery)
+			dm.Reach = reachAll(sc, recipientIDs(act))
 			viol := func(rule, site, feature, msg string) {
 				r.Violate(verdict.Sig{Rule: "C02." + rule, Site: site, Feature: feature}, witness{Scenario: sc},
 					map[string]interface{}{"message": msg, "model_inboxes": dm.Inboxes, "response": rp, "log": res.Log})
@@ -315,13 +392,25 @@ func init() {
 				case "tp.Dereference":
 					if isPublic(e.Args[0]) {
 						viol("public-dereferenced", e.Site, "Public", "the Public collection was dereferenced")
+					} else if !dm.MayFetch[e.Args[0]] && dm.Reach[e.Args[0]] {
+						viol("dereference-outside-model", e.Site, "beyond depth or not addressed", fmt.Sprintf("Dereference(%s): the recipient graph reaches it only beyond depth %d", e.Args[0], sc.Cfg.MaxDelivery))
 					} else if !dm.MayFetch[e.Args[0]] {
-						viol("dereference-outside-model", e.Site, "beyond depth or not addressed", fmt.Sprintf("Dereference(%s) but the model never reaches it within depth %d", e.Args[0], sc.Cfg.MaxDelivery))
+						r.Count("dereferences_outside_the_recipient_graph", 1)
 					}
 					r.Count("dereferences", 1)
+				case "tp.Deliver":
+					// "handed over once": a single delivery next to the batch
+					// is a second hand-over
+					batches = append(batches, e)
 				case "db.InboxForActor":
 					r.Count("inbox_for_actor_calls", 1)
 				}
+			}
+			if len(batches) == 0 && len(dm.Inboxes) == 0 {
+				// nobody to deliver to: whether the transport is called with
+				// an empty list is the library's choice
+				r.Count("empty_recipient_sets_without_batch", 1)
+				return
 			}
 			if len(batches) != 1 {
 				viol("batch-count", "pub.(*sideEffectActor).deliverToRecipients", "batch count", fmt.Sprintf("%d BatchDeliver calls, want exactly 1", len(batches)))
@@ -431,6 +520,9 @@ func init() {
 					sc.Requests = []sim.Request{sim.PostOutboxReq(aliceOut(), withCtx(act))}
 				} else {
 					sc.Requests = []sim.Request{{Kind: "Send", URL: aliceOut(), Body: withCtx(act)}}
+					if g.Chance(1, 4) {
+						sc.Cfg.Social = false // a federating-only actor
+					}
 				}
 				sc.Name = fmt.Sprintf("delivery-graph#%d", i)
 				if i < 2 {
